@@ -62,7 +62,7 @@ Section WM.
         if w_abort st then st                                  (* `if self.is_aborted(): break` *)
         else
           let '(kept, st1) := dirs_loop base dirs st in
-          let st2 := files_loop base files st1 in
+          let st2 := if w_abort st1 then st1 else files_loop base files st1 in   (* `if files and not self.is_aborted()` *)
           fold_left (fun s d =>
                        if w_abort s then s
                        else if followlinks || negb (islink (pjoin base d)) then walk f (pjoin base d) s else s)
